@@ -12,6 +12,13 @@ static double rnd(const Q& q)
 {
    return toReal(q);
 }
+// bitwise equality, except that any two values beyond the infinity threshold with the same sign are the same "infinite"
+static bool sameVal(double got, double want)
+{
+   if(want >= soplex::infinity) return got >= soplex::infinity;
+   if(want <= -soplex::infinity) return got <= -soplex::infinity;
+   return sameBits(got, want);
+}
 
 // ------------------------------------------------------------------------------------------------ mirror comparison
 // every accessor of the real interface against the model, bit for bit
@@ -33,8 +40,10 @@ static std::string compareAccessors(SoPlex& sp, const LPModel& M)
    for(int i = 0; i < m; i++)
    {
       double l = rnd(M.lhs[i]), r = rnd(M.rhs[i]);
-      if(!sameBits(sp.lhsReal(i), l) || !sameBits(lhsv[i], l)) return "lhs:lhsReal(" + std::to_string(i) + ")=" + ds(sp.lhsReal(i)) + " model " + ds(l);
-      if(!sameBits(sp.rhsReal(i), r) || !sameBits(rhsv[i], r)) return "rhs:rhsReal(" + std::to_string(i) + ")=" + ds(sp.rhsReal(i)) + " model " + ds(r);
+      if(!sameVal(sp.lhsReal(i), l)) return "lhs:lhsReal(" + std::to_string(i) + ")=" + ds(sp.lhsReal(i)) + " model " + ds(l);
+      if(!sameVal(lhsv[i], l)) return "lhsvec:getLhsReal()[" + std::to_string(i) + "]=" + ds(lhsv[i]) + " model " + ds(l);
+      if(!sameVal(sp.rhsReal(i), r)) return "rhs:rhsReal(" + std::to_string(i) + ")=" + ds(sp.rhsReal(i)) + " model " + ds(r);
+      if(!sameVal(rhsv[i], r)) return "rhsvec:getRhsReal()[" + std::to_string(i) + "]=" + ds(rhsv[i]) + " model " + ds(r);
       // row type
       LPRowBase<double>::Type want = (l > -soplex::infinity && r < soplex::infinity) ? (l == r ? LPRowBase<double>::EQUAL : LPRowBase<double>::RANGE)
                                      : (l > -soplex::infinity ? LPRowBase<double>::GREATER_EQUAL : LPRowBase<double>::LESS_EQUAL);
@@ -61,11 +70,14 @@ static std::string compareAccessors(SoPlex& sp, const LPModel& M)
    for(int j = 0; j < n; j++)
    {
       double l = rnd(M.lo[j]), u = rnd(M.up[j]), c = dq(M.obj[j]);
-      if(!sameBits(sp.lowerReal(j), l) || !sameBits(lov[j], l)) return "lower:lowerReal(" + std::to_string(j) + ")=" + ds(sp.lowerReal(j)) + " model " + ds(l);
-      if(!sameBits(sp.upperReal(j), u) || !sameBits(upv[j], u)) return "upper:upperReal(" + std::to_string(j) + ")=" + ds(sp.upperReal(j)) + " model " + ds(u);
-      if(!(sp.objReal(j) == c) || !(objv[j] == c)) return "obj:objReal(" + std::to_string(j) + ")=" + ds(sp.objReal(j)) + " model " + ds(c);
+      if(!sameVal(sp.lowerReal(j), l)) return "lower:lowerReal(" + std::to_string(j) + ")=" + ds(sp.lowerReal(j)) + " model " + ds(l);
+      if(!sameVal(lov[j], l)) return "lowervec:getLowerReal()[" + std::to_string(j) + "]=" + ds(lov[j]) + " model " + ds(l);
+      if(!sameVal(sp.upperReal(j), u)) return "upper:upperReal(" + std::to_string(j) + ")=" + ds(sp.upperReal(j)) + " model " + ds(u);
+      if(!sameVal(upv[j], u)) return "uppervec:getUpperReal()[" + std::to_string(j) + "]=" + ds(upv[j]) + " model " + ds(u);
+      if(!(sp.objReal(j) == c)) return "obj:objReal(" + std::to_string(j) + ")=" + ds(sp.objReal(j)) + " model " + ds(c);
+      if(!(objv[j] == c)) return "objvec:getObjReal()[" + std::to_string(j) + "]=" + ds(objv[j]) + " model " + ds(c);
       double mo = sp.maxObjReal(j);
-      if(!(mo == (M.sense > 0 ? c : -c))) return "maxobj:maxObjReal(" + std::to_string(j) + ")=" + ds(mo) + " inconsistent with objReal and sense";
+      if(!(mo == (M.sense > 0 ? c : -c))) return "maxobj:maxObjReal(" + std::to_string(j) + ")=" + ds(mo) + " but objReal=" + ds(sp.objReal(j)) + " and sense=" + std::to_string(M.sense);
       DSVectorReal col;
       sp.getColVectorReal(j, col);
       std::vector<double> dense(m, 0.0);
@@ -745,14 +757,19 @@ static HistRes c06Run(uint64_t sub, const ParamSet& cfg, int nsteps, bool count)
       fail("mirror.load." + e0.substr(0, e0.find(':')), e0.substr(e0.find(':') + 1), 0);
       return R;
    }
+   std::string curCall = "?";
+   try
+   {
    for(int step = 0; step < nsteps && R.tag.empty(); step++)
    {
       int w = g.range(0, 99);
+      curCall = w < 70 ? "modification" : w < 88 ? "optimize" : "basis-call";
       if(w < 70)
       {
          int op = g.range(0, NOPS - 1);
          OpCtx c{g, sp, M, "", true, ""};
          applyOp(c, op);
+         curCall = c.name + "+accessors";
          if(count && !c.name.empty()) S.count("c06.op." + c.name);
          if(!c.err.empty())
          {
@@ -844,6 +861,13 @@ static HistRes c06Run(uint64_t sub, const ParamSet& cfg, int nsteps, bool count)
          sp.setBasis(rs.data(), cs.data());
          if(count) S.count("c06.setBasis");
       }
+   }
+   }
+   catch(const SPxException& e)
+   {
+      // no public entry point documents an exception as its failure mode
+      std::string w = e.what();
+      fail("exception." + curCall + "." + w.substr(0, 8), "SPxException escaped from " + curCall + ": " + w, -1);
    }
    return R;
 }
